@@ -113,6 +113,8 @@ def irset(r, toggle: bool = None, special: bool = None, density: float = None, l
         for k in list(keys):
             if r.random() < density:
                 keys.append("on_" + k)
+        if r.random() < 0.3:
+            keys.append("off")      # legal, unusual: a toggle set that also ships a plain off code (never used for a toggle remote)
     else:
         keys.append("off")
     if special:
